@@ -529,7 +529,10 @@ def check(prop, tier, verif_seed, budget_s=None, jobs=None, max_runs=None,
     if jobs is None:
         jobs = int(os.environ.get('VERIF_JOBS',
                                   min(16, os.cpu_count() or 1)))
-    chunk = int(os.environ.get('VERIF_CHUNK', 120))
+    chunk = int(os.environ.get('VERIF_CHUNK', 0))
+    adaptive = chunk <= 0
+    if adaptive:
+        chunk = 24          # then sized so that a chunk lasts about 0.6 s
     agg = new_agg()
     found = None
     harness = None
@@ -568,6 +571,10 @@ def check(prop, tier, verif_seed, budget_s=None, jobs=None, max_runs=None,
                     harness = f'worker died: {e!r}'
                     continue
                 merge(agg, r['agg'])
+                if adaptive and r['agg'].get('wall', 0) > 0 and \
+                        r['agg']['runs']:
+                    per_s = r['agg']['runs'] / r['agg']['wall']
+                    chunk = max(16, min(400, int(.6 * per_s)))
                 if r.get('harness_error'):
                     harness = r['harness_error']
                 if r.get('nondeterminism') and nondet is None:
